@@ -65,7 +65,7 @@ func verif_C07_data_cut() {
 	s.LMTP = lmtp
 	// a size limit somewhere around the message (0 = none): where the budget
 	// runs out is one more place at which the stream may end
-	limit := []int{0, 2, L + 1, verifBound(0, 1)}[verifChoice(3+verifBound(0, 1))]
+	limit := []int{0, 2, L + 1}[verifChoice(3)]
 	s.MaxMessageBytes = int64(limit)
 	// the last octets arrive alone, or together with the end of the connection
 	vc := &vconn{in: in[:cut], final: final, finalWithData: nondetBool()}
